@@ -1789,7 +1789,12 @@ def rule_error_accounting(col, facts):
         pts = [-S - 2, -S - 1, -S, -S + 1, -S + 2]
         v1 = [t1(x) for x in pts]
         v2 = [t2(x) for x in pts]
-        col.check(R, "error_is_accurate~round", None not in v1 and v1 == v2,
+        if None in v1 or None in v2 or not any(v1) or not any(v2) or all(v1) or all(v2):
+            # the comparison found is not a threshold on the exponent around -S (the classification is written in
+            # another way: `mantissa_shift.max(1 - exp)`): not read
+            col.assumed("not-applied", "SIB-denormal:error_is_accurate~round", "no exponent threshold near -%d found in one of the two functions: the denormal classification is written in a form this rule does not read" % S, ea.loc())
+        else:
+          col.check(R, "error_is_accurate~round", None not in v1 and v1 == v2,
                   "error_is_accurate treats exponents %s as denormal but shared::round treats %s (around exp = -%d): for the boundary binade the near-halfway test looks at a different bit window than the rounding uses" %
                   ([x for x, v in zip(pts, v1) if v], [x for x, v in zip(pts, v2) if v], S), ea.loc())
     # the error count is used unscaled
